@@ -15,11 +15,12 @@ type Layout interface {
 	TrailingSpaces() int    // spaces appended to a finished line
 	OwnLineComment() string // "" or a `// …` / `/* … */` comment put on its own line before a statement
 	CommentIndent(cur int) int
-	TrailingComment() string // "" or a comment appended to a statement's last line
-	IfOneLine() bool         // write an eligible if on one line
-	RhsNextLine() bool       // put a let's right-hand side on the next line
-	ArmNextLine() bool       // put a match arm's body on the next line
-	PipeBreak() bool         // break the line before this |>
+	TrailingComment() string        // "" or a comment appended to a statement's last line
+	IfOneLine() bool                // write an eligible if on one line
+	RhsNextLine() bool              // put a let's right-hand side on the next line
+	ArmNextLine() bool              // put a match arm's body on the next line
+	PipeBreak() bool                // break the line before this |>
+	ContinuationCol(lo, hi int) int // column of a broken pipeline's continuation lines when the pipeline starts mid-line (lo..hi)
 	RecordOneLine() bool
 	CaseIndent() int // indentation of union cases / match arms relative to their head (0..)
 }
@@ -27,18 +28,19 @@ type Layout interface {
 // Canonical is the fixed layout used wherever layout is not the subject.
 type Canonical struct{}
 
-func (Canonical) Indent() int               { return 2 }
-func (Canonical) BlankLines() int           { return 0 }
-func (Canonical) TrailingSpaces() int       { return 0 }
-func (Canonical) OwnLineComment() string    { return "" }
-func (Canonical) CommentIndent(cur int) int { return cur }
-func (Canonical) TrailingComment() string   { return "" }
-func (Canonical) IfOneLine() bool           { return false }
-func (Canonical) RhsNextLine() bool         { return false }
-func (Canonical) ArmNextLine() bool         { return false }
-func (Canonical) PipeBreak() bool           { return false }
-func (Canonical) RecordOneLine() bool       { return true }
-func (Canonical) CaseIndent() int           { return 0 }
+func (Canonical) Indent() int                    { return 2 }
+func (Canonical) BlankLines() int                { return 0 }
+func (Canonical) TrailingSpaces() int            { return 0 }
+func (Canonical) OwnLineComment() string         { return "" }
+func (Canonical) CommentIndent(cur int) int      { return cur }
+func (Canonical) TrailingComment() string        { return "" }
+func (Canonical) IfOneLine() bool                { return false }
+func (Canonical) RhsNextLine() bool              { return false }
+func (Canonical) ArmNextLine() bool              { return false }
+func (Canonical) PipeBreak() bool                { return false }
+func (Canonical) ContinuationCol(lo, hi int) int { return hi }
+func (Canonical) RecordOneLine() bool            { return true }
+func (Canonical) CaseIndent() int                { return 0 }
 
 var opRank = map[string]int{
 	"|>": 1,
@@ -356,36 +358,49 @@ func (p *Printer) letLike(head string, e *Expr, indent int) {
 		return
 	}
 	if e.K == "pipe" && e.Extra == 0 {
-		// the pipeline may still break: continuation lines align with the first token
-		stages := pipeStages(e)
-		col := indent + len(head) + 1
-		first := true
-		cur := ""
-		for i, st := range stages {
-			if i == 0 {
-				cur = head + " " + Inline(st, 1)
-				continue
-			}
-			if p.L.PipeBreak() {
-				if first {
-					p.line(indent, cur)
-					first = false
-				} else {
-					p.line(col, cur)
-				}
-				cur = "|> " + Inline(st, 101)
-			} else {
-				cur += " |> " + Inline(st, 101)
-			}
-		}
-		if first {
-			p.line(indent, cur)
-		} else {
-			p.line(col, cur)
-		}
+		p.pipeAfterHead(indent, head, e)
 		return
 	}
 	p.line(indent, head+" "+Inline(e, 0))
+}
+
+// pipeAfterHead prints `head stage0 |> stage1 ...` where the pipeline starts mid-line; it may break
+// before any |>, the continuation lines sitting anywhere between one column right of the line's own
+// indentation and the column of the pipeline's first token.
+func (p *Printer) pipeAfterHead(indent int, head string, e *Expr) {
+	stages := pipeStages(e)
+	hi := indent + len(head) + 1
+	lo := indent + 1
+	for _, st := range stages[1:] {
+		st.Walk(func(x *Expr) {
+			if x.K == "lambda" || x.K == "if" {
+				// a nested block on a continuation line must start right of the pipeline's first
+				// token (fc: "Overrun offside rule" otherwise): keep the documented aligned style
+				lo = hi
+			}
+		})
+	}
+	col := p.L.ContinuationCol(lo, hi)
+	first := true
+	cur := head + " " + Inline(stages[0], 1)
+	for _, st := range stages[1:] {
+		if p.L.PipeBreak() {
+			if first {
+				p.line(indent, cur)
+				first = false
+			} else {
+				p.line(col, cur)
+			}
+			cur = "|> " + Inline(st, 101)
+		} else {
+			cur += " |> " + Inline(st, 101)
+		}
+	}
+	if first {
+		p.line(indent, cur)
+	} else {
+		p.line(col, cur)
+	}
 }
 
 func pipeStages(e *Expr) []*Expr {
@@ -481,7 +496,11 @@ func (p *Printer) arm(head string, body *Block, indent int) {
 	}
 	single := len(body.Stmts) == 0 && CanInline(body.Final) && !(body.Final.K == "if" && body.Final.Else == nil)
 	if single && !p.L.ArmNextLine() {
-		p.line(indent, head+" "+Inline(body.Final, 0))
+		if body.Final.K == "pipe" && body.Final.Extra == 0 {
+			p.pipeAfterHead(indent, head, body.Final)
+		} else {
+			p.line(indent, head+" "+Inline(body.Final, 0))
+		}
 		p.trail()
 		return
 	}
@@ -497,7 +516,11 @@ func (p *Printer) funcDecl(f *FuncDecl, indent int) {
 	head += " ="
 	b := f.Body
 	if len(b.Stmts) == 0 && CanInline(b.Final) && !p.L.RhsNextLine() && b.Final.K != "if" {
-		p.line(indent, head+" "+Inline(b.Final, 0))
+		if b.Final.K == "pipe" && b.Final.Extra == 0 {
+			p.pipeAfterHead(indent, head, b.Final)
+		} else {
+			p.line(indent, head+" "+Inline(b.Final, 0))
+		}
 		p.trail()
 		return
 	}
